@@ -31,6 +31,7 @@ type evalEnv struct {
 	qn   *int
 	inOld bool
 	point ssa.Instruction // program point (at-eval clauses): names resolve to the value in use here
+	prevPhis map[*ssa.Phi]Value // step clauses: the loop variables before the iteration (prev(x))
 	asks  *[]*Term        // terms whose model values help to replay a refutation (the bigval(..) terms of the clause)
 }
 
@@ -98,6 +99,20 @@ func findField(t types.Type, name string) ([]int, types.Type) {
 	return nil, nil
 }
 
+// cellOf: the alloc that holds the variable obj, if the function refers to its address anywhere.
+func cellOf(fn *ssa.Function, obj types.Object) ssa.Value {
+	for _, b := range fn.Blocks {
+		for _, in := range b.Instrs {
+			if dr, ok := in.(*ssa.DebugRef); ok && dr.IsAddr && dr.Object() == obj {
+				if a, ok := dr.X.(*ssa.Alloc); ok {
+					return a
+				}
+			}
+		}
+	}
+	return nil
+}
+
 func (en *evalEnv) lookupIdent(name string) (ev, bool) {
 	if v, ok := en.vars[name]; ok {
 		return v, true
@@ -160,6 +175,15 @@ func (en *evalEnv) lookupIdent(name string) (ev, bool) {
 					if id, ok := dr.Expr.(*ast.Ident); ok && id.Name == name {
 						if !en.hasValue(dr.X) {
 							continue // defined by an instruction that has not been executed at this point
+						}
+						// the same variable may live in a cell (address taken, or not lifted to registers): a
+						// reference to its address elsewhere in the function tells; its current contents are what counts
+						if obj := dr.Object(); obj != nil {
+							if cell := cellOf(en.point.Parent(), obj); cell != nil && en.hasValue(cell) {
+								if pt, ok := cell.Type().(*types.Pointer); ok {
+									return ev{e.load(en.fr, en.st, e.val(en.fr, cell), pt.Elem()), pt.Elem()}, true
+								}
+							}
 						}
 						// the variable may have been re-assigned on the way to the program point: a phi of
 						// this variable in a block between the reference and the point carries the current value
@@ -642,6 +666,21 @@ func (en *evalEnv) call(x *ECall) ev {
 			return ev{False, nil}
 		}
 		return ev{Eq(App(SInt, "uf_and", a, b), b), nil}
+	case "wrapu64":
+		// value of a uint64 expression: mathematical value modulo 2^64
+		return ev{App(SInt, "wrapU", en.intTerm(x.Args[0]), BigLit(pow2(64))), nil}
+	case "prev":
+		// prev(x): the value of loop variable x before the iteration (step clauses)
+		id, ok := x.Args[0].(*EIdent)
+		if !ok || en.prevPhis == nil {
+			en.fail("prev(x) needs a loop variable, inside a step clause")
+		}
+		for phi, v := range en.prevPhis {
+			if phi.Comment == id.Name {
+				return ev{v, phi.Type()}
+			}
+		}
+		en.fail("prev(%s): no such loop variable", id.Name)
 	case "bigval":
 		// bigval(x): the mathematical integer held by the *big.Int / *slip.Bignum x (value model of math/big)
 		a := arg(0)
@@ -983,6 +1022,17 @@ func (e *Exec) contractLoopInvs(fr *Frame, h *ssa.BasicBlock, li *loopInfo, phis
 			continue
 		}
 		e.usedLoopKeys[key] = true
+		for i, cl := range c.Steps[key] {
+			cl := cl
+			li.steps = append(li.steps, &loopStep{name: clauseName(cl, i), eval: func(now, before map[*ssa.Phi]Value, st *State, point ssa.Instruction) *Term {
+				en := e.newEnv(fr, st, e.entry)
+				en.phis = now
+				en.prevPhis = before
+				en.point = point
+				// other names: the value in use at the end of the iteration (the instruction that jumps back)
+				return e.evalClause(en, cl)
+			}})
+		}
 		for i, cl := range c.Decreases[key] {
 			cl := cl
 			d := &loopDecr{name: clauseName(cl, i), eval: func(v map[*ssa.Phi]Value, st *State) *Term {
